@@ -99,6 +99,8 @@ pub struct Mon {
     pub rcv_started_in_tx: HashSet<Pubkey>,
     // C14: pause window of each group as announced by the global fee state at propagation time
     pub pause_window: HashMap<Pubkey, (i64, i64)>,
+    // C20 (venue): number of pass-through operations seen per bank
+    pub venue_ops: HashMap<Pubkey, u64>,
 }
 
 /// Program error codes (Anchor custom codes) the monitors need to recognise.
@@ -164,6 +166,9 @@ impl Mon {
         }
         if self.on.iter().any(|p| matches!(*p, "C07" | "C14")) {
             self.killed_forever(&info);
+        }
+        if self.en("C20") {
+            self.venue_on_ix(w, v, &info);
         }
         if self.on.iter().any(|p| matches!(*p, "C08" | "C12" | "C13" | "C14" | "C19")) {
             self.admin_on_ix(w, v, &info);
